@@ -510,7 +510,7 @@ func eject(input OmegaInput) (output OmegaOutput) {
 	serviceID := input.Addition.ResultContextX.ServiceID
 
 	accountD, accountExists := input.Addition.ResultContextX.PartialState.ServiceAccounts[types.ServiceID(d)]
-	if !(types.ServiceID(d) != serviceID && accountExists) {
+	if !(d <= math.MaxUint32 && types.ServiceID(d) != serviceID && accountExists) {
 		// bold{d} = panic => CONTINUE, WHO
 		input.VM.Registers[7] = WHO
 		return OmegaOutput{
@@ -912,6 +912,9 @@ func provide(input OmegaInput) (output OmegaOutput) {
 
 	// a = d[s*] or nil,  d = (x_u)_d
 	account, accountExists := input.Addition.ResultContextX.PartialState.ServiceAccounts[s]
+	if input.VM.Registers[7] > math.MaxUint32 && input.VM.Registers[7] != 0xffffffffffffffff {
+		accountExists = false // a register value outside N_S names no service
+	}
 	if !accountExists {
 		// otherwise if a = nil
 		input.VM.Registers[7] = WHO
